@@ -125,7 +125,7 @@ func genC01(t *rapid.T) c01Case {
 		if rapid.IntRange(0, 9).Draw(t, "file0bias") < 6 {
 			op.File = 0
 		}
-		op.Kind = pick(t, "kind", "write", "write", "write", "read", "read", "read", "setsize", "create", "getattr")
+		op.Kind = pick(t, "kind", "write", "write", "write", "write", "read", "read", "read", "read", "setsize", "create", "getattr", "roundtrip")
 		switch op.Kind {
 		case "create":
 			op.How = pick(t, "how", uint32(nfsx.Unchecked), uint32(nfsx.Unchecked), uint32(nfsx.Guarded))
@@ -418,6 +418,12 @@ func runC01(tb stat.TB, c c01Case) {
 					continue
 				}
 				s.nfs(nfsx.ProcGetattr, nfsx.ArgsFh(fhs[op.File]))
+			case "roundtrip":
+				// UpdateExportOptions(GetExportOptions()) changes nothing: same transfer size, same data afterwards
+				if err := s.e.NFS.UpdateExportOptions(s.e.NFS.GetExportOptions()); err != nil {
+					tb.Fatalf("harness: UpdateExportOptions(GetExportOptions()): %v", err)
+				}
+				labels["options_round_trip"] = true
 			case "read":
 				if !m.exists || fhs[op.File] == nil {
 					labels["skipped_nofile"] = true
